@@ -57,7 +57,7 @@ def _py_includes():
 def _digest(spec, root):
     h = hashlib.sha256()
     h.update(json.dumps(spec, sort_keys=True).encode())
-    h.update(b"v5")
+    h.update(b"v6")
     paths = [os.path.join(root, spec["path"])]
     for d in spec["inc"]:
         dd = os.path.join(root, d)
@@ -98,7 +98,7 @@ def load_tu(name, root=None, _raw=False):
             pass
     np_inc, py_inc = _py_includes()
     filts = spec["filt"] if isinstance(spec["filt"], list) else [spec["filt"]]
-    if isinstance(spec["filt"], list):
+    if spec["filt"]:
         # file-local helper functions (static [inline] ...) are part of the code under analysis too
         import re
         try:
@@ -474,6 +474,13 @@ class CCFG:
         for p, l in preds:
             self._edge(p, n, l)
 
+    def _label_node(self, key):
+        if not hasattr(self, "_labels"):
+            self._labels = {}
+        if key not in self._labels:
+            self._labels[key] = self._new("stmt", None, "label")
+        return self._labels[key]
+
     def node(self, i):
         return self.g.nodes[i]["node"]
 
@@ -630,9 +637,18 @@ class CCFG:
         if k == "NullStmt":
             return preds
         if k == "LabelStmt":
-            return self._stmt(inner[-1], preds)
+            ln = self._label_node(st.get("declId"))
+            self._connect(preds, ln)
+            return self._stmt(inner[-1], [(ln, None)])
         if k == "GotoStmt":
-            raise AnalysisError("goto in %s is not modelled" % self.name)
+            # edge to the label node (created on demand; forward and backward jumps alike)
+            n = self._new("stmt", st, "goto")
+            self._connect(preds, n)
+            key = st.get("targetLabelDeclId")
+            if key is None:
+                raise AnalysisError("goto without a resolved label in %s" % self.name)
+            self._edge(n, self._label_node(key), "goto")
+            return []
         # expression / declaration statements
         if k == "CXXThrowExpr" or (k == "ExprWithCleanups" and inner and strip(inner[0]).get("kind") == "CXXThrowExpr"):
             n = self._new("raise", st)
